@@ -8,6 +8,7 @@ CONSTANTS
   MaxOps = 2
   Omit = 2
   MaxNow = 2
+  OpKinds = {"read", "write", "assign", "annerr"}
   UseLock = FALSE
 INVARIANT StreamReconstructs
 INVARIANT Ordered
